@@ -6,7 +6,7 @@
 
 package basicauth
 
-//@ unit htpasswd_lock props=C08 filter=`GetHtpasswdMatcher$`
+//@ unit htpasswd_lock props=C08,C11 filter=`GetHtpasswdMatcher$`
 //@ func GetHtpasswdMatcher
 //@   ensures [lock_balance] held(htpasswordsMu) == old(held(htpasswordsMu))
 
